@@ -832,6 +832,11 @@ class Explorer(object):
                 if a[0] == 'alloca':
                     self._bump(st, a[1])
                     st.mem.pop(a, None)
+        # any library call may set errno
+        if name not in ('__errno_location',) and not name.startswith('llvm.'):
+            if ('errno',) in st.mem:
+                del st.mem[('errno',)]
+            self._bump(st, 'errno')
         if self.call_hook:
             r = self.call_hook(self, st, ev, fn)
             if r is not None:
